@@ -904,6 +904,26 @@ def i_XCHG(i, fmap):
     fmap[op2] = tmp1
 
 
+def i_XADD(i, fmap):
+    fmap[rip] = fmap[rip] + i.length
+    op1 = i.operands[0]
+    op2 = i.operands[1]
+    a = fmap(op1)
+    b = fmap(op2)
+    x, carry, overflow = AddWithCarry(a, b)
+    fmap[pf] = parity8(x[0:8])
+    fmap[af] = halfcarry(a, b)
+    fmap[zf] = x == 0
+    fmap[sf] = x.bit(-1)
+    fmap[cf] = carry
+    fmap[of] = overflow
+    # the source receives the old destination first, so that XADD r,r leaves the sum
+    op2, a = _r32_zx64(op2, a)
+    fmap[op2] = a
+    op1, x = _r32_zx64(op1, x)
+    fmap[op1] = x
+
+
 def i_SHR(i, fmap):
     fmap[rip] = fmap[rip] + i.length
     REX = i.misc["REX"]
@@ -1237,6 +1257,20 @@ def i_DIV(i, fmap):
     s_ = src.zeroextend(md_.size)
     q_ = fmap(md_ / s_)
     r_ = fmap(md_ % s_)
+    d, hi = _r32_zx64(d, r_[0 : src.size])
+    fmap[d] = hi
+    m, lo = _r32_zx64(m, q_[0 : src.size])
+    fmap[m] = lo
+
+
+def i_IDIV(i, fmap):
+    fmap[rip] = fmap[rip] + i.length
+    src = i.operands[0]
+    m, d = {8: (al, ah), 16: (ax, dx), 32: (eax, edx), 64: (rax, rdx)}[src.size]
+    md_ = fmap(composer([m, d])).signed()
+    s_ = fmap(src).signextend(md_.size).signed()
+    q_ = md_ / s_
+    r_ = md_ % s_
     d, hi = _r32_zx64(d, r_[0 : src.size])
     fmap[d] = hi
     m, lo = _r32_zx64(m, q_[0 : src.size])
